@@ -233,6 +233,13 @@ func validateNoOptOut(
 			// Bits beyond the current registry are unknown migrations from a newer
 			// Juno; let validateNoVersionDowngrade surface that. Iter yields in
 			// ascending order, so every remaining bit is also out of range.
+			// validateNoVersionDowngrade only sees applied migrations, so a migration that
+			// was opted into but has not completed yet must be refused here.
+			if len(flagList) == 0 {
+				return errors.New(
+					"database is from a newer, incompatible version of Juno; upgrade to use this database",
+				)
+			}
 			break
 		}
 		if flag := optionalMigrationFlags[idx]; flag != "" {
